@@ -837,6 +837,7 @@ class C14(Check):
                 return {"v": v, "forms": bad} if bad else {"v": v}
             except Exception as e:
                 return {"exc": type(e).__name__, "where": self._lib_exc(e)}
+        if case["kind"] == "v6ext": return self.run_v6ext(case)
         obs = {}
         top = {"ethernet": self.m["ethernet"].ethernet, "ipv4": self.m["ipv4"].ipv4}[case["top"]]
         if case["kind"] == "mutparse":
@@ -1091,9 +1092,129 @@ class C14(Check):
             if o: o.pop("_q", None); o.pop("_obj", None)
         return obs
 
+    # ------------------------------------------------------------------ IPv6 extension-header chains (Model/IPv6Ext.lean)
+    V6FIX = dict(tc=0, flow=0, hop_limit=64)
+    def run_v6ext(self, case):
+        """{"kind":"v6ext","exts":[{"t","nh","plen","body"}],"nht":n,"payload":hex,"trailer":hex}: an ipv6 object with that chain and a raw
+        payload is packed; its bytes (+ trailer: bytes behind the datagram, as an Ethernet trailer would be) are parsed by ipv6(raw=...)"""
+        M = self.m["ipv6"]
+        payload, trailer = bytes.fromhex(case["payload"]), bytes.fromhex(case["trailer"])
+        o = M.ipv6(next_header_type=case["nht"], srcip=self.IPAddr6(bytes(15) + b"\x01", raw=True), dstip=self.IPAddr6(bytes(15) + b"\x02", raw=True), **self.V6FIX)
+        for e in case["exts"]:
+            cls = {0: M.HopByHopOptions, 43: M.Routing, 44: M.Fragment, 60: M.DestinationOptions}[e["t"]]
+            h = cls(raw_body=bytes.fromhex(e["body"]))
+            h.next_header_type = e["nh"]
+            if e["t"] != 44: h.payload_length = e["plen"]
+            o.extension_headers.append(h)
+        o.payload = payload
+        try:
+            b = o.pack()
+        except Exception as ex:
+            return {"packed": None, "exc": type(ex).__name__, "where": self._lib_exc(ex)}
+        obs = {"packed": b[40:len(b) - len(payload)].hex() if b.endswith(payload) else None, "all": b.hex(), "plen_field": be(b[4:6])}
+        try:
+            q = M.ipv6(raw=b + trailer)
+        except Exception as ex:
+            obs.update(exc2=type(ex).__name__, where=self._lib_exc(ex)); return obs
+        obs["res"] = "ok" if q.parsed else "unparsed"
+        obs["exts"] = [{"t": getattr(x, "TYPE", None), "nh": x.next_header_type, "plen": getattr(x, "payload_length", 0) if getattr(x, "TYPE", None) != 44 else 0,
+                        "body": self._hex(x.raw_body)} for x in q.extension_headers]
+        if q.parsed:
+            obs["nht"] = q.payload_type
+            obs["payload"] = None if q.next is None else (bytes(q.next).hex() if isinstance(q.next, (bytes, bytearray)) else "object:" + type(q.next).__name__)
+            try:
+                obs["repack"] = q.pack().hex()
+            except Exception as ex:
+                obs.update(repack_exc=type(ex).__name__, where=self._lib_exc(ex))
+        return obs
+
+    @staticmethod
+    def v6ext_wf(case):
+        """the hypotheses of theorem ipv6_ext_roundtrip: well-formed headers, a linked chain, a payload protocol that is not an extension header"""
+        t = case["nht"]
+        for e in case["exts"]:
+            n = len(e["body"]) // 2
+            if e["t"] != t or not 0 <= e["nh"] < 256: return False
+            if e["t"] == 44:
+                if n != 7 or e["plen"] != 0: return False
+            elif n != e["plen"] or n % 8 != 6 or n // 8 >= 256: return False
+            t = e["nh"]
+        if t == 59 and case["payload"]: return False               # NO_NEXT_HEADER with a payload: the caller contradicts itself
+        return t not in (0, 43, 44, 60)
+
+    def v6ext_oracle(self, case, obs):
+        if not self.v6ext_wf(case) or case["trailer"]: return None        # C14 speaks of what the library assembles, parsed back as emitted
+        payload = bytes.fromhex(case["payload"])
+        if obs.get("packed") is None: return "pack() of an IPv6 header with well-formed extension headers fails: %s" % (obs.get("exc") or "payload not at the end")
+        want = b"".join(bytes([e["nh"]]) + (b"" if e["t"] == 44 else bytes([(e["plen"] + 2) // 8 - 1])) + bytes.fromhex(e["body"]) for e in case["exts"])
+        if bytes.fromhex(obs["packed"]) != want: return "extension headers emitted as %s, RFC 8200 layout gives %s" % (obs["packed"], want.hex())
+        if obs["plen_field"] != len(want) + len(payload): return "payload length field %d, %d bytes follow the fixed header" % (obs["plen_field"], len(want) + len(payload))
+        if "exc2" in obs: return "parsing the emitted bytes raises %s" % obs["exc2"]
+        if obs["res"] != "ok": return "the emitted bytes do not parse"
+        if obs["exts"] != [dict(e) for e in case["exts"]]: return "re-parsed extension headers differ: %s" % json.dumps(obs["exts"])[:300]
+        last = case["exts"][-1]["nh"] if case["exts"] else case["nht"]
+        if obs["nht"] != last: return "re-parsed payload protocol %s, built %d" % (obs["nht"], last)
+        if last != 59 and obs["payload"] != payload.hex(): return "re-parsed payload differs: %s" % str(obs["payload"])[:120]
+        if obs.get("repack") != obs["all"]: return "re-pack differs: %s" % (obs.get("repack_exc") or "bytes")
+        return None
+
+    def g_v6ext(self, rng, wf=None):
+        wf = rng.random() < 0.7 if wf is None else wf
+        n = rng.choice([0, 1, 1, 2, 2, 3, 4, 6])
+        types = [rng.choice([0, 43, 44, 60]) for _ in range(n)]
+        proto = rng.choice([99, 253, 41, 59, 2, 4, 132, 89])                      # not UDP/TCP/ICMPv6: the payload stays raw bytes
+        exts = []
+        for i, t in enumerate(types):
+            nh = types[i + 1] if i + 1 < n else proto
+            if t == 44: body, plen = self.rbytes(rng, 7), 0
+            else:
+                plen = 8 * rng.choice([0, 0, 1, 1, 2, 5, 31, 254, 255]) + 6
+                body = self.rbytes(rng, plen)
+            exts.append({"t": t, "nh": nh, "plen": plen, "body": body.hex()})
+        case = {"kind": "v6ext", "exts": exts, "nht": types[0] if n else proto, "payload": self.rbytes(rng, rng.choice([0, 1, 7, 8, 9, 40, 300])).hex(), "trailer": ""}
+        if not wf and exts:
+            e = rng.choice(exts); v = rng.randrange(7)
+            if v == 0: e["plen"] = max(0, e["plen"] + rng.choice([-6, -1, 1, 2, 8]))                         # length not matching the body
+            elif v == 1: e["body"] = e["body"][:2 * rng.randrange(0, len(e["body"]) // 2 + 1)]                 # short body
+            elif v == 2: e["nh"] = rng.choice([0, 43, 44, 60, 59, 256, 300])                                   # chain not linked / out of range
+            elif v == 3: case["trailer"] = self.rbytes(rng, rng.choice([1, 4, 8, 18, 46])).hex()              # bytes behind the datagram
+            elif v == 4: e["plen"] = rng.choice([2040, 2046, 2047, 2048, 4000])                                # length octet at / past 255
+            elif v == 5: case["nht"] = rng.choice([0, 43, 44, 60, 59, 99])                                     # fixed header announces something else
+            else: e["body"] = e["body"] + self.rbytes(rng, rng.choice([1, 2, 8])).hex()                       # long body
+        return case
+
+    def v6ext_corpus(self):
+        cases = []
+        B = lambda n, s=1: bytes((s + 3 * i) & 255 for i in range(n)).hex()
+        E = lambda t, nh, plen=None: {"t": t, "nh": nh, "plen": 0 if t == 44 else plen, "body": B(7 if t == 44 else plen, t)}
+        C = lambda exts, nht, pay=8, tr=0: {"kind": "v6ext", "exts": exts, "nht": nht, "payload": B(pay, 9), "trailer": B(tr, 0xee)}
+        for proto in (99, 59, 253):
+            cases.append(C([], proto))
+            for t in (0, 43, 44, 60):
+                for plen in ((0,) if t == 44 else (6, 14, 254 * 8 + 6, 255 * 8 + 6)):
+                    for pay in (0, 1, 8, 64):
+                        cases.append(C([E(t, proto, plen)], t, pay))
+            for t1 in (0, 43, 44, 60):                                # every ordered pair, every body size mix
+                for t2 in (0, 43, 44, 60):
+                    for p1 in (6, 22):
+                        cases.append(C([E(t1, t2, p1), E(t2, proto, 14)], t1, 5))
+            cases.append(C([E(0, 43, 6), E(43, 44, 22), E(44, 60), E(60, 0, 6), E(0, proto, 14)], 0, 33))
+        for tr in (1, 2, 6, 7, 8, 9, 16, 46):                         # bytes behind the datagram (the loop's `length` over-estimates)
+            cases.append(C([E(0, 99, 6)], 0, 3, tr)); cases.append(C([E(44, 99)], 44, 3, tr)); cases.append(C([E(60, 44, 14), E(44, 99)], 60, 0, tr))
+        bad = C([E(0, 99, 6)], 0); bad["exts"][0]["plen"] = 14; cases.append(bad)                    # announces 16 octets, carries 8
+        bad = C([E(0, 99, 14)], 0); bad["exts"][0]["plen"] = 6; cases.append(bad)                    # announces 8, carries 16
+        bad = C([E(0, 99, 6)], 0); bad["exts"][0]["nh"] = 256; cases.append(bad)                     # struct.error
+        bad = C([E(44, 99)], 44); bad["exts"][0]["body"] = B(6); cases.append(bad)                   # assert in FixedExtensionHeader.pack
+        bad = C([E(0, 99, 6)], 0); bad["exts"][0]["plen"] = 2047; cases.append(bad)                  # length octet 256
+        bad = C([E(0, 60, 6)], 0, 4); cases.append(bad)                                              # announces a header that is not there (4 bytes)
+        bad = C([E(0, 44, 6)], 0, 7); cases.append(bad)
+        bad = C([E(0, 0, 6)], 0, 1); cases.append(bad)
+        cases.append(C([E(0, 99, 6)], 60)); cases.append(C([E(0, 99, 6)], 59)); cases.append(C([E(0, 99, 6)], 17 + 200))
+        return cases
+
     # ------------------------------------------------------------------ model
     def modelled(self, case):
-        if case["kind"] == "cksum": return True
+        if case["kind"] in ("cksum", "v6ext"): return True
         ok = lambda Ls: all((L["k"] in MODELLED and not L.get("ext") and L.get("routing") is None) or L["k"] in TERMINAL for L in Ls)
         if case["kind"] == "hist": return all(ok(Ls) for Ls in case["stacks"])
         return ok(case["layers"]) and (case.get("other") is None or ok(case["other"]))
@@ -1133,6 +1254,8 @@ class C14(Check):
         return {"op": "stack", "top": top or case["top"], "cfg": self.variant, "layers": Ls}
 
     def model_request(self, case, obs=None):
+        if case["kind"] == "v6ext":
+            return {"op": "v6ext", "exts": case["exts"], "nht": case["nht"], "payload": case["payload"], "trailer": case["trailer"]}
         if case["kind"] == "cksum":
             return {"op": "cksum", "data": case["data"], "start": case["start"], "skip": case["skip"]}
         if not self.modelled(case): return None
@@ -1161,6 +1284,10 @@ class C14(Check):
         return {k: resp[k] for k in keys if k in resp}
 
     def model_obs(self, case, resp):
+        if case["kind"] == "v6ext":
+            if "error" in resp: return resp
+            if resp["packed"] is None: return {"packed": None}
+            return {k: resp[k] for k in ("packed", "res", "exts", "nht", "payload") if k in resp}
         if case["kind"] == "mutparse":
             # damaged bytes may lead into a parser outside the model (LLC, IPv6, IGMP, ...): the model says so and the case is
             # skipped (counted in the evidence), never guessed
@@ -1186,6 +1313,10 @@ class C14(Check):
         return self._stack_view(resp)
 
     def impl_view(self, case, obs):
+        if case["kind"] == "v6ext":
+            if obs.get("packed") is None: return {"packed": None}
+            if "exc2" in obs: return {"exc2": obs["exc2"]}
+            return {k: obs[k] for k in ("packed", "res", "exts", "nht", "payload") if k in obs}
         if case["kind"] == "mutparse":
             if getattr(self, "_declined_now", False): return {"declined": True}
             if "exc" in obs: return {"exc": obs["exc"]}
@@ -1216,6 +1347,7 @@ class C14(Check):
         return out
 
     def oracle(self, case, obs):
+        if case["kind"] == "v6ext": return self.v6ext_oracle(case, obs)
         if case["kind"] == "cksum":
             if "exc" in obs: return "checksum() raises %s at %s" % (obs["exc"], obs["where"])
             if obs.get("forms"): return "checksum() call forms disagree: %s" % ",".join(obs["forms"])
@@ -1307,6 +1439,7 @@ class C14(Check):
         return k + ("[" + ",".join(tags) + "]" if tags else "")
 
     def finding_key(self, case, obs, failure):
+        if case["kind"] == "v6ext": return "v6ext:" + re.sub(r"[0-9a-f]{6,}|\d+", "N", failure)[:60]
         if case["kind"] == "cksum":
             if "exc" in obs: return "cksum:%s-length:%s" % ("odd" if len(case["data"]) // 2 % 2 else "even", obs["exc"])
             if obs.get("forms"): return "cksum:call-forms"
@@ -1365,12 +1498,21 @@ class C14(Check):
         return failure[:60]
 
     def nontrivial(self, case, obs):
+        if case["kind"] == "v6ext": return len(case["exts"]) >= 1
         if case["kind"] == "cksum": return len(case["data"]) >= 4
         if case["kind"] == "mutparse": return False
         if case["kind"] == "hist": return True
         return sum(1 for L in case["layers"] if L["k"] not in TERMINAL) >= 2
 
     def shrink_candidates(self, case):
+        if case["kind"] == "v6ext":
+            for j in range(len(case["exts"])):
+                ex = case["exts"][:j] + case["exts"][j + 1:]
+                if j > 0 and j < len(case["exts"]): ex[j - 1] = dict(ex[j - 1], nh=case["exts"][j]["nh"])
+                yield dict(case, exts=ex, nht=(case["exts"][1]["t"] if len(case["exts"]) > 1 else case["exts"][0]["nh"]) if j == 0 else case["nht"])
+            if len(case["payload"]) > 2: yield dict(case, payload=case["payload"][:2])
+            if case["trailer"]: yield dict(case, trailer="")
+            return
         if case["kind"] == "mutparse": return
         if case["kind"] == "hist":
             for j in range(len(case["ops"])):
@@ -2304,6 +2446,7 @@ class C14(Check):
         for n in (65534, 65535, 65536, 65537, 131071, 131072):
             for fill in (b"\xff", b"\x80", b"\x01"):
                 cases.append({"kind": "cksum", "data": (fill * n).hex(), "start": 0, "skip": None})
+        cases += self.v6ext_corpus()
         return cases
 
     def generate(self, rng, tier):
@@ -2317,6 +2460,7 @@ class C14(Check):
             elif r < 0.75: yield self.g_hist(rng)
             elif r < 0.753: yield self.g_big(rng)
             elif r < 0.783: yield self.g_cktarget(rng)
+            elif r < 0.813: yield self.g_v6ext(rng)
             else: yield self.g_other(rng)
 
     def search_cases(self, rng, tier):
@@ -2333,7 +2477,7 @@ C14.theorems = ["Pox.C14." + t for t in (
     "eth_roundtrip", "vlan_roundtrip", "vlan_cfi_d13_witness", "arp_roundtrip", "echo_roundtrip", "unreach_roundtrip",
     "time_exceeded_roundtrip", "tcp_roundtrip", "roundtrip", "repack_id",
     # phase 2 (Model/PacketExt.lean); RIP and EAP are the theorems of the code as committed (repairs D50, D49)
-    "llc_roundtrip", "mpls_roundtrip", "lldp_roundtrip", "lldp_tlv_length", "eapol_roundtrip", "eap_roundtrip_body", "ipv6_hdr", "udp6_hdr", "tcp6_hdr",
+    "llc_roundtrip", "mpls_roundtrip", "lldp_roundtrip", "lldp_tlv_length", "eapol_roundtrip", "eap_roundtrip_body", "ipv6_hdr", "ipv6_ext_roundtrip", "udp6_hdr", "tcp6_hdr",
     "icmp6_hdr", "icmp6_roundtrip", "echo6_roundtrip", "gre_hdr", "gre_roundtrip", "vxlan_roundtrip", "igmp_v2", "igmp_v3", "rip_roundtrip_unsigned",
     "xparse_eth_dispatch", "xparse_ipv4_dispatch", "xparse_udp_dispatch", "lldp_frame_roundtrip", "variant_repo",
     # reverted tree: regression witnesses (the variant without repairs D50 / D49, XCfg.head)
@@ -2347,7 +2491,7 @@ C14.level_text = (
     "Per class, hdr/parse round trip (and hdr of the parsed object = the same bytes) + every length field + every Internet checksum = RFC 1071 (and verifies at a receiver): "
     "Ethernet, 802.1Q, ARP, IPv4 (+options), UDP and TCP (+option lists) over IPv4 and over IPv6 pseudo headers, ICMP (echo/unreachable/time-exceeded/other), "
     "LLC (1/2 control octets, SNAP), MPLS, LLDP (whole PDU: chassis/port/TTL + description/name/capabilities/management-address/org-specific/unknown TLVs + END, TLV lengths exact), "
-    "EAPOL, EAP (all four codes; request/response keep their type data), IPv6 fixed header (payload length), ICMPv6 (every type: checksum verification accepts what hdr emits, dispatch to the message class; echo; "
+    "EAPOL, EAP (all four codes; request/response keep their type data), IPv6 fixed header (payload length) and extension-header chains (any number and mix of Hop-by-Hop / Routing / Destination-Options / Fragment headers: emitted layout, whole 8-octet units, the parse loop returns chain, payload protocol and payload: ipv6_ext_roundtrip), ICMPv6 (every type: checksum verification accepts what hdr emits, dispatch to the message class; echo; "
     "NDP router/neighbor solicitation/advertisement with link-layer-address / prefix-information / MTU / unknown options, option lengths exact; packet-too-big, time-exceeded, unreachable), "
     "GRE (flags/key/seq/checksum), VXLAN, IGMP v1/v2 messages and v3 reports with group records (checksum verified by parse), RIP (entries, unsigned 32-bit metric), "
     "DHCP (fixed header, chaddr/sname/file/cookie, option TLVs with PAD/END, RFC 3396 split of values > 255 bytes and their re-assembly). "
@@ -2360,7 +2504,7 @@ C14.level_text = (
 C14.level_note = (
     "The theorems are about hand-written models (Model/Checksum.lean, PacketLayout.lean, PacketHdr.lean, PacketExt.lean) of the code as committed (repairs D12, D13, D40-D51, D22 are in); "
     "they are tied to the code only by the differential run. PROVED per class (62 theorems): ethernet, vlan, arp, ipv4, udp, tcp, icmp(+echo, unreach, time_exceeded), llc, mpls, lldp, eapol, "
-    "eap, ipv6(fixed header), icmpv6(+echo, NDP messages and options, packet-too-big, time-exceeded, unreachable), gre, vxlan, igmp, rip, dhcp(+options). RIP and EAP exist in two code variants "
+    "eap, ipv6(fixed header; extension-header chains as a separate model Model/IPv6Ext.lean, compared with the real ipv6.hdr / ipv6.parse on well-formed and malformed chains, with and without bytes behind the datagram), icmpv6(+echo, NDP messages and options, packet-too-big, time-exceeded, unreachable), gre, vxlan, igmp, rip, dhcp(+options). RIP and EAP exist in two code variants "
     "(with / without repairs D50, D49): the harness finds the variant of the tree under test by probing the classes and the model is evaluated at that variant; the headline theorems "
     "(rip_roundtrip_unsigned, eap_roundtrip_body, variant_repo) are those of /repo as committed, the theorems of the old code (rip_roundtrip, eap_roundtrip, variant_head) are kept as "
     "regression witnesses for a reverted tree. "
@@ -2369,7 +2513,7 @@ C14.level_note = (
     "are checked by the differential run, not proved. DHCP options are modelled at the byte level (code, value): the typed option classes (DHCPMsgTypeOption, DHCPIPOptionBase, ...) are "
     "compared through their pack() bytes by the differential run only. The DHCP overload option (52) is never honoured by the code (bytes compared with an int) and the model says the same. "
     "STILL DIFFERENTIAL ONLY (real build->bytes->parse->re-pack + independent recomputation in the harness, no theorem; the code is repaired, the classes are not modelled): DNS (D46), "
-    "IPv6 extension headers (D48), GRE routing, MPTCP TCP options. "
+    "GRE routing, MPTCP TCP options; IPv6 extension headers INSIDE a whole stack (the chain model is standalone: stacks containing an ipv6 layer with extension headers are judged by the oracle). "
     "DESIGN §5 announced translator-derived obligations c14_<proto>_layout_partial; there is no translator and no *_partial obligation: every module listed above has a hand-written behaviour "
     "model with full (not layout-only) theorems plus model comparison, and the remainder is differential only as listed. "
     "Trusted: Lean kernel, propext/Classical.choice/Quot.sound, the RFC 1071 transcriptions, the harness's wire walker, little-endian host.")
